@@ -248,3 +248,38 @@ func VfC17_Kinds() {
 		}
 	}
 }
+
+// VfC17_RepeatedAttachments: several attachments of the same kind on a global
+// variable, a declaration and a definition (legal and common: `!type`) are all
+// kept, in order, each referring to its node.
+//
+//vf:unwind 300
+func VfC17_RepeatedAttachments() {
+	d := vfString("ids", 2)
+	vfAssume(vfAnd(vfAnd(d[0] >= '0', d[0] <= '4'), vfAnd(d[1] >= '5', d[1] <= '9')))
+	a, b := "!"+d[0:1], "!"+d[1:2]
+	src := "@g = global i32 0, !type " + a + ", !type " + b + ", !dbg " + a + ", !type " + a + "\n" +
+		"declare !type " + b + " !type " + a + " void @decl()\n" +
+		"define void @def() !type " + a + " !type " + b + " {\n\tret void\n}\n" +
+		a + " = !{}\n" + b + " = distinct !{}\n"
+	m, err := ParseString("t.ll", src)
+	vfReach("C17.repeated-attachments")
+	vfObserveStr("src", src)
+	vfAssert("C17.repeated.accepted", err == nil)
+	if err != nil {
+		return
+	}
+	na, nb := hC17Def(m, int64(d[0]-'0')), hC17Def(m, int64(d[1]-'0'))
+	ga := m.Globals[0].Metadata
+	vfAssert("C17.repeated.global-keeps-all", len(ga) == 4)
+	if len(ga) == 4 {
+		vfAssert("C17.repeated.global-nodes-in-order", vfAnd(vfAnd(ga[0].Node == metadata.MDNode(na.(*metadata.Tuple)), ga[1].Node == metadata.MDNode(nb.(*metadata.Tuple))), vfAnd(ga[2].Node == metadata.MDNode(na.(*metadata.Tuple)), ga[3].Node == metadata.MDNode(na.(*metadata.Tuple)))))
+	}
+	vfAssert("C17.repeated.functions-keep-all", vfAnd(len(m.Funcs[0].Metadata) == 2, len(m.Funcs[1].Metadata) == 2))
+	y := m.String()
+	m2, err2 := ParseString("t.ll", y)
+	vfAssert("C17.repeated.print-accepted", err2 == nil)
+	if err2 == nil {
+		vfAssert("C17.repeated.print-keeps-all", vfAnd(len(m2.Globals[0].Metadata) == 4, vfAnd(len(m2.Funcs[0].Metadata) == 2, len(m2.Funcs[1].Metadata) == 2)))
+	}
+}
